@@ -247,6 +247,32 @@ fn literal_neighbours(e: &Expr) -> Vec<Expr> {
     let mut total = 0usize;
     let _ = expr(e, &mut total, usize::MAX);
     let mut out = Vec::new();
+    // an array index changed by one
+    {
+        fn bump(l: &Lhs) -> Option<Lhs> {
+            let mut l2 = l.clone();
+            for i in l2.path.iter_mut() {
+                if let Idx::N(n) = i {
+                    *i = Idx::N(n.wrapping_add(1));
+                    return Some(l2);
+                }
+            }
+            None
+        }
+        match e {
+            Expr::Cmp { lhs: l, op, rhs } => {
+                if let Some(l2) = bump(l) {
+                    out.push(Expr::Cmp { lhs: l2, op: *op, rhs: rhs.clone() });
+                }
+            }
+            Expr::IsTrue(l) => {
+                if let Some(l2) = bump(l) {
+                    out.push(Expr::IsTrue(l2));
+                }
+            }
+            _ => {}
+        }
+    }
     for t in 0..total.min(6) {
         let mut k = 0usize;
         let v = expr(e, &mut k, t);
@@ -440,6 +466,34 @@ pub fn run(tier: Tier, seed: u64) -> i32 {
                             format!("{:?} and {ntext:?} differ in one literal but (ast equal: {}, json equal: {})", texts[0], nast == *rast, njs == *rjs),
                             case_json(&tag, "spelling-pair", &ntext, json!(e), None, json!({"other": texts[0]})),
                         );
+                    }
+                }
+            }
+        }
+        // an index beyond u32 is not an index: the text with 2^32 added to an array index must not
+        // parse to the same AST / document
+        if let Some((rast, rjs, _, _)) = &reference {
+            let base = render(e);
+            if let Some(pos) = base.find('[') {
+                let rest = &base[pos + 1..];
+                let digits: String = rest.chars().take_while(|c| c.is_ascii_digit()).collect();
+                if !digits.is_empty() && rest[digits.len()..].starts_with(']') {
+                    if let Ok(n) = digits.parse::<u64>() {
+                        for big in [n + (1u64 << 32), n + (1u64 << 33)] {
+                            let text = format!("{}[{big}{}", &base[..pos], &rest[digits.len()..]);
+                            run.eval(1);
+                            run.count("oversized_index_texts", 1);
+                            if let Ok(Ok(a)) = guarded(|| scheme.parse(&text).map_err(|e| e.to_string())) {
+                                let js = serde_json::to_string(&a).unwrap_or_default();
+                                if a == *rast || js == *rjs {
+                                    run.violation(
+                                        format!("{ID}:oversized-index-equal:{base}"),
+                                        format!("{text:?} (index beyond 2^32) parses to the same AST / document as {base:?}"),
+                                        case_json(&tag, "spelling-pair", &text, json!(e), None, json!({"other": base})),
+                                    );
+                                }
+                            }
+                        }
                     }
                 }
             }
